@@ -45,6 +45,24 @@ def arg_order_rule(chk, src, rule, rels, callees):
 
 
 
+def _opaque_op(name="operator"):
+    """operator whose content the rule does not look at: scale / add / copy give opaque operators again"""
+    from ..syminterp import Sym
+    o = Sym(name, model=None, mpos=[])
+    o.__dict__.update(scale=lambda *a, **k: _opaque_op(f"{name}.scale"), add=lambda x: _opaque_op(f"{name}+"), copy=lambda: _opaque_op(name))
+    return o
+
+
+def _mpo_ns(**attrs):
+    """stand-in for the Mpo class in abstract runs that do not look at the operator: class methods given as attributes, a constructor call gives an opaque operator"""
+    from ..syminterp import Sym
+
+    class _MpoNS(Sym):
+        def __call__(self, *a, **k):
+            return _opaque_op("Mpo(...)")
+    return _MpoNS("Mpo", **attrs)
+
+
 def entry_gauge_rule(chk, src):
     """abstract run of optimize_mps up to the construction of the environments, for every combination of the gauge flags of the input:
     the state has been orthonormalised by an ensure_*_canonical() / canonicalise() call and the environment side matches the resulting gauge"""
@@ -63,14 +81,14 @@ def entry_gauge_rule(chk, src):
                 def environ(mps_, mpo_, side, *a, **k):
                     built.append(side)
                     raise Stop()
-                mps = Sym("mps", is_left_canonical=left, is_right_canonical=right, is_mix_canonical=False, to_right=None, qnidx=Blob("qnidx"), site_num=Blob("n"),
+                mps = Sym("mps", is_left_canonical=left, is_right_canonical=right, is_mix_canonical=False, to_right=None, qnidx=Blob("qnidx"), site_num=Blob("n"), model=Blob("state-model"),
                           optimize_config=Sym("cfg", method="2site", e_rtol=0, e_atol=0, procedure=[], nroots=1), compress_config=Blob("cc"))
                 mps.__dict__["ensure_right_canonical"] = lambda *a, **k: gauge.append("right") or mps
                 mps.__dict__["ensure_left_canonical"] = lambda *a, **k: gauge.append("left") or mps
                 mps.__dict__["canonicalise"] = lambda *a, **k: gauge.append("canonicalise") or mps
                 mpo = Sym("mpo", model=Blob("model"), add=lambda o: Sym("mpo2"), mpos=[])
-                ident = Sym("identity", scale=lambda x: Sym("scaled"))
-                it = SymInterp(src, None, {"Environ": environ, "logger": Blob("logger"), "StackedMpo": "StackedMpo", "Mpo": Sym("Mpo", identity=lambda m: ident)})
+                ident = _opaque_op("identity")
+                it = SymInterp(src, None, {"Environ": environ, "logger": Blob("logger"), "StackedMpo": "StackedMpo", "Mpo": _mpo_ns(identity=lambda m: ident), "Quantity": lambda v, *a: v})
                 try:
                     it.call_function(fi, [mps, mpo, omega])
                 except Stop:
@@ -84,6 +102,73 @@ def entry_gauge_rule(chk, src):
                               "position of the quantum-number centre); a warm start from a non-canonical state then reports energies below the exact ground energy")
     return n
 
+
+
+def shift_operator_rule(chk, src):
+    """abstract run of optimize_mps with a target energy: the operator whose environments are built (and which the sweeps then use) is the operator the
+    caller handed in minus omega times the identity of the same model - twice (for (H - omega)^2) - and not something re-derived from the model
+    (the given operator may carry an offset, a subset of terms, a scaling)."""
+    import sympy as sp
+    from ..syminterp import SymInterp, Sym, Blob
+    fi = src.func(GS, "optimize_mps")
+    om = sp.Symbol("omega", real=True)
+
+    class Stop(Exception):
+        pass
+
+    class OpS(Sym):
+        """symbolic operator: linear combination of named operators"""
+        def __init__(self, terms, model):
+            super().__init__("+".join(f"{c}*{k}" for k, c in sorted(terms.items(), key=str)) or "0")
+            self.terms, self.model, self.mpos = dict(terms), model, []
+
+        def add(self, o):
+            t = dict(self.terms)
+            for k, c in o.terms.items():
+                t[k] = sp.simplify(t.get(k, 0) + c)
+            return OpS(t, self.model)
+
+        __add__ = add
+
+        def scale(self, c, inplace=False):
+            return OpS({k: sp.simplify(v * c) for k, v in self.terms.items()}, self.model)
+
+        def copy(self):
+            return OpS(self.terms, self.model)
+    model = Sym("model")
+    given = OpS({"H(given operator)": sp.Integer(1)}, model)
+    built = []
+
+    def environ(mps_, mpo_, *a, **k):
+        built.append(mpo_)
+        raise Stop()
+
+    def make_mpo(m=None, terms=None, offset=None, **k):
+        # an operator constructed from a model: not the given operator
+        t = {f"Mpo({m!r}" + (", terms=..." if terms is not None else "") + ")": sp.Integer(1)}
+        if offset is not None:
+            t["I"] = -offset if isinstance(offset, sp.Expr) else sp.Symbol("offset")
+        return OpS(t, m)
+    class MpoNS(Sym):
+        def __call__(self, *a, **k):
+            return make_mpo(*a, **k)
+    mpo_ns = MpoNS("Mpo", identity=lambda m: OpS({"I": sp.Integer(1)} if m is model else {f"I({m!r})": sp.Integer(1)}, m))
+    mps = Sym("mps", is_left_canonical=True, is_right_canonical=False, is_mix_canonical=False, to_right=None, qnidx=Blob("qnidx"), site_num=Blob("n"), model=Sym("model of the state"),
+              optimize_config=Sym("cfg", method="2site", e_rtol=0, e_atol=0, procedure=[], nroots=1), compress_config=Blob("cc"))
+    for nm in ("ensure_right_canonical", "ensure_left_canonical", "canonicalise"):
+        mps.__dict__[nm] = lambda *a, **k: mps
+    it = SymInterp(src, None, {"Environ": environ, "logger": Blob("logger"), "StackedMpo": "StackedMpo", "Mpo": mpo_ns, "Quantity": lambda v, *a: v})
+    try:
+        it.call_function(fi, [mps, given, om])
+    except Stop:
+        pass
+    want = {"H(given operator)": sp.Integer(1), "I": -om}
+    ops = built[0] if built and isinstance(built[0], list) else None
+    ok = ops is not None and len(ops) == 2 and all(isinstance(o, OpS) and o.terms == want and o.model is model for o in ops)
+    chk.ob("shift-operator", "optimize_mps[omega set]: environments of [H - omega, H - omega] with H the given operator", ok, fi.where,
+           [repr(o) for o in ops] if ops is not None else repr(built[:1]), ["1*H(given operator) + (-omega)*I"] * 2, line=fi.node.lineno,
+           detail="the excited-state functional is <(H - omega)^2> for the operator that was handed in; an operator rebuilt from the model loses the given operator's offset, "
+                  "term subset or scaling, and the reported value is no longer min (lambda - omega)^2 of that operator")
 
 
 def result_normalised_rule(chk, src):
@@ -119,7 +204,7 @@ def result_normalised_rule(chk, src):
         def single_sweep(mps_, mpo_, environ_, omega_, percent_, idx_):
             n_sweeps.append(percent_)
             return [(-1.0 - 0.1 * len(n_sweeps), 2)], (results[0] if nroots == 1 else list(results)), mpo_
-        mps = Sym("mps", is_left_canonical=False, is_right_canonical=False, compress_config="config-on-entry",
+        mps = Sym("mps", is_left_canonical=False, is_right_canonical=False, compress_config="config-on-entry", model=Blob("state-model"),
                   optimize_config=Sym("cfg", method="2site", e_rtol=1e-6, e_atol=1e-8, nroots=nroots, procedure=[[16, 0.2], [16, 0], [16, 0]]))
         mps.__dict__["ensure_left_canonical"] = lambda *a: mps
         mps.__dict__["ensure_right_canonical"] = lambda *a: mps
@@ -165,6 +250,8 @@ def run(chk):
     result_normalised_rule(chk, src)
     chk.rule("entry-gauge", "optimize_mps orthonormalises its input before building environments, on every path, and builds the environments of the matching side", 8)
     entry_gauge_rule(chk, src)
+    chk.rule("shift-operator", "omega-targeting optimises (H - omega)^2 of the operator that was handed in", 1)
+    shift_operator_rule(chk, src)
     chk.rule("arg-order", "kernels are called with same-named arguments in parameter order", 4)
     cases = K.hop_expr_cases(src) + K.ham_direct_cases(src) + K.hdiag_cases(src)
     add_cases(chk, "heff-network", cases, "effective Hamiltonian")
